@@ -41,6 +41,8 @@ class Ctx:
         self.work = os.path.join(WORK, prop)
         os.makedirs(self.work, exist_ok=True)
         self.replay_dir = os.path.join(WORK, "replay", prop)
+        if not replay:
+            shutil.rmtree(self.replay_dir, ignore_errors=True)      # replay files of earlier runs are stale
         os.makedirs(self.replay_dir, exist_ok=True)
         self.violations = []
         self.known_hit = {}
@@ -68,7 +70,9 @@ class Ctx:
             if f.get("property") != self.prop:
                 continue
             if tags is not None and "tags" in f:
-                hit = f.get("symptom") == signature and set(f["tags"]) <= set(tags)
+                sym_ok = (f.get("symptom") == signature) or \
+                    ("symptom_prefix" in f and signature.startswith(f["symptom_prefix"]))
+                hit = sym_ok and all(tag_in(t, tags) for t in f["tags"])
             else:
                 hit = sig_match(f, signature)
             if hit:
@@ -103,6 +107,13 @@ class _Timer:
 
     def __exit__(self, *a):
         self.ctx.stage_times[self.name] = round(self.ctx.stage_times.get(self.name, 0) + time.time() - self.t, 2)
+
+
+def tag_in(t, tags):
+    """finding tag t (a trailing * makes it a prefix pattern) present among the case's tags?"""
+    if t.endswith("*"):
+        return any(x.startswith(t[:-1]) for x in tags)
+    return t in tags
 
 
 def sig_match(finding, signature):
